@@ -118,6 +118,28 @@ class Shim(object):
         finally:
             self.inside -= 1
 
+    def virtual_dev(self, st, op, paths, entries, mode):
+        """st_dev as the virtual mount table sees it: every volume other than / gets a device number of its own"""
+        try:
+            if entries:
+                e = entries[0]
+            elif op == 'fstat':
+                e = paths[0]
+            else:
+                e = self.entry(paths[0], mode or 'target')
+            if op == 'lstat' or mode == 'entry':
+                vol = e if e in self.mounts else self.volume_of_dir(posixpath.dirname(e))
+            else:
+                vol = self.volume_of_dir(e)
+            if vol == '/':
+                return st
+            t, d = st.__reduce__()[1]
+            t = list(t)
+            t[2] = st.st_dev + 1000 + self.mounts.index(vol)
+            return type(st)(tuple(t), d)
+        except Exception:
+            return st
+
     def volume_of_dir(self, d):
         for m in self.mounts:
             if d == m or m == '/' or d.startswith(m + '/'):
@@ -236,6 +258,49 @@ def _order(names, plan, key=lambda x: x):
     return names
 
 
+class _DirEntryProxy(object):
+    """os.DirEntry whose stat() reports the virtual st_dev (used only when the plan has more than one volume)"""
+    __slots__ = ('_e', '_S', '_abs')
+
+    def __init__(self, e, S, base):
+        self._e, self._S = e, S
+        self._abs = base.rstrip('/') + '/' + os.fsdecode(e.name)
+
+    name = property(lambda self: self._e.name)
+    path = property(lambda self: self._e.path)
+
+    def inode(self):
+        return self._e.inode()
+
+    def is_dir(self, follow_symlinks=True):
+        return self._e.is_dir(follow_symlinks=follow_symlinks)
+
+    def is_file(self, follow_symlinks=True):
+        return self._e.is_file(follow_symlinks=follow_symlinks)
+
+    def is_symlink(self):
+        return self._e.is_symlink()
+
+    def is_junction(self):
+        return False
+
+    def stat(self, follow_symlinks=True):
+        st = self._e.stat(follow_symlinks=follow_symlinks)
+        S = self._S
+        S.inside += 1
+        try:
+            mode = 'target' if follow_symlinks else 'entry'
+            return S.virtual_dev(st, 'stat' if follow_symlinks else 'lstat', [self._abs], None, mode)
+        finally:
+            S.inside -= 1
+
+    def __fspath__(self):
+        return self._e.path
+
+    def __repr__(self):
+        return '<DirEntry %r>' % (self._e.name,)
+
+
 class _ScandirWrapper(object):
     def __init__(self, entries):
         self._it = iter(entries)
@@ -336,6 +401,8 @@ def _make_wrapper(name, orig):
                 raise
             if name == 'open':
                 S.fdpath[r] = entries[0] if entries else S.entry(paths[0], 'target')
+            elif name in ('stat', 'lstat', 'fstat') and len(S.mounts) > 1:
+                r = S.virtual_dev(r, name, paths, entries, m if is_path else None)
             elif name == 'close':
                 S.fdpath.pop(a[0], None)
             elif name == 'listdir':
@@ -344,6 +411,8 @@ def _make_wrapper(name, orig):
                 ents = list(r)
                 r.close()
                 ents = _order(ents, S.plan, key=lambda e: e.name)
+                if len(S.mounts) > 1:
+                    ents = [_DirEntryProxy(e, S, paths[0]) for e in ents]
                 r = _ScandirWrapper(ents)
             S.record([seq, name, paths, entries, _result_of(name, r)] + ([extra] if extra is not None else []))
             if S.plan.crash_after is not None and seq == S.plan.crash_after:
